@@ -142,8 +142,8 @@ def session_task(modules: list[str], ops: list[dict[str, Any]]):
 					if kind == 'db-unload':
 						db.unload(m)
 					else:
-						# what ModuleLoader.unload does, also when Modules no longer lists the module (rows came back through import_json)
-						mods.unload(m)
+						# what ModuleLoader.unload does for this one module (Modules.unload would cascade to its importers,
+						# and the statement is about a table that still holds all the other modules): entrypoint and rows go, so import builds on fresh nodes
 						app.resolve(Entrypoints).unload(m)
 						db.unload(m)
 					emptied.add(m)
